@@ -91,16 +91,17 @@ theorem flattenAnonPointer_inv (hP : DocInv P) (fc : Facts) (x : Ext) (o : Opts)
       simp only [pure_eq_ok] at h; subst h
       exact hP.withSchema _ _ _ _ h1 hp
 
-theorem namePointers_inv (hP : DocInv P) (fc : Facts) (x : Ext) (o : Opts) (s s' : St)
-    (h : namePointers fc x o s = .ok s') (hp : P s.doc) : P s'.doc := by
-  unfold namePointers at h
+theorem namePointersPass_inv (hP : DocInv P) (fc : Facts) (x : Ext) (o : Opts) (s : St) (r : St × Bool)
+    (h : namePointersPass fc x o s = .ok r) (hp : P s.doc) : P r.1.doc := by
+  unfold namePointersPass at h
   obtain ⟨plans, _, h⟩ := bind_eq_ok.1 h
   obtain ⟨ops, _, h⟩ := bind_eq_ok.1 h
-  obtain ⟨⟨s1, pl⟩, h1, h⟩ := bind_eq_ok.1 h
+  obtain ⟨⟨⟨s1, pl⟩, rp⟩, h1, h⟩ := bind_eq_ok.1 h
   simp only [pure_eq_ok] at h
   subst h
   show P s1.doc
-  have := foldlM_inv (fun a : St × List (String × PtrPlan) => P a.1.doc) _ ?_ _ (s, plans) (s1, pl) hp h1
+  have := foldlM_inv (fun a : (St × List (String × PtrPlan)) × Bool => P a.1.1.doc) _ ?_ _ ((s, plans), false)
+    ((s1, pl), rp) hp h1
   · exact this
   intro acc key acc' hs hstep
   split at hstep
@@ -111,7 +112,28 @@ theorem namePointers_inv (hP : DocInv P) (fc : Facts) (x : Ext) (o : Opts) (s s'
     · obtain ⟨d, hd, hstep⟩ := bind_eq_ok.1 hstep
       simp only [pure_eq_ok] at hstep; subst hstep
       exact hP.updateRef _ _ _ _ hd hs
-    · exact flattenAnonPointer_inv hP _ _ _ _ _ _ _ _ _ hstep hs
+    · obtain ⟨r', hr', hstep⟩ := bind_eq_ok.1 hstep
+      simp only [pure_eq_ok] at hstep; subst hstep
+      exact flattenAnonPointer_inv hP _ _ _ _ _ _ _ _ _ hr' hs
+
+theorem namePointersLoop_inv (hP : DocInv P) (fc : Facts) (x : Ext) (o : Opts) : ∀ (fuel : Nat) (s s' : St),
+    namePointersLoop fc x o fuel s = .ok s' → P s.doc → P s'.doc := by
+  intro fuel
+  induction fuel with
+  | zero => intro s s' h; simp [namePointersLoop] at h
+  | succ n ih =>
+    intro s s' h hp
+    unfold namePointersLoop at h
+    obtain ⟨⟨s1, rp⟩, h1, h⟩ := bind_eq_ok.1 h
+    have hp1 : P s1.doc := namePointersPass_inv hP fc x o s _ h1 hp
+    dsimp only at h
+    split at h
+    · exact ih _ _ h hp1
+    · simp only [pure_eq_ok] at h; exact h ▸ hp1
+
+theorem namePointers_inv (hP : DocInv P) (fc : Facts) (x : Ext) (o : Opts) (s s' : St)
+    (h : namePointers fc x o s = .ok s') (hp : P s.doc) : P s'.doc :=
+  namePointersLoop_inv hP fc x o _ s s' h hp
 
 theorem stripOAIGenForRef_inv (hP : DocInv P) (fc : Facts) (x : Ext) (st : St) (k : String) (r : NewRef)
     (res : St × Bool) (h : stripOAIGenForRef fc x st k r = .ok res) (hp : P st.doc) : P res.1.doc := by
